@@ -3,6 +3,7 @@ package main
 import (
 	"fmt"
 	"go/ast"
+	"go/constant"
 	"go/token"
 	"go/types"
 	"strconv"
@@ -408,6 +409,14 @@ func runC14Req(c *Ctx) {
 					okDefault = true
 				} else {
 					why = "the Default field is not a pointer: presence cannot be told from the empty value"
+				}
+			}
+			// a conjunction: no way of computing the value yields true without the test of the default (the constant a
+			// short-circuit `||` puts in place of its second operand)
+			for _, l := range leaves {
+				if k, isConst := l.(*ssa.Const); isConst && k.Value != nil && k.Value.Kind() == constant.Bool && constant.BoolVal(k.Value) && okDefault {
+					okDefault = false
+					why = "the value is true on a path that does not pass the test of the default (a disjunction instead of `required && default == nil`): an optional input without default counts as required"
 				}
 			}
 			if okDefault {
